@@ -175,6 +175,8 @@ def structure(doc_type, nmembers, commissioning="both"):
             od.node_id = sx.fresh_int("nid", 1, 127)
         if commissioning in ("both", "rate"):
             od.bitrate = 250000
+        if str(commissioning).startswith("rate:"):
+            od.bitrate = int(commissioning.split(":")[1])          # every standard rate, 1 Mbit/s included
     od.add_object(C.mkvar("Device type", 0x1000, 0, 0x07, "ro", default=sx.fresh_int("devtype", 0, 0xFFFFFFFF)))
     od.add_object(C.mkvar("Error register", 0x1001, 0, 0x05, "ro", default=0))
     members = [C.mkvar("Highest sub-index", 0x1018, 0, 0x05, "const", default=nmembers)]
@@ -337,6 +339,8 @@ def jobs(tier):
     out.append(dict(func="imported_roundtrip", params={}))
     for comm in ("node", "rate", "none"):
         out.append(dict(func="structure", params=dict(doc_type="dcf", nmembers=1, commissioning=comm)))
+    for rate in (10000, 20000, 50000, 125000, 500000, 800000, 1000000):
+        out.append(dict(func="structure", params=dict(doc_type="dcf", nmembers=1, commissioning="rate:%d" % rate)))
     return out
 
 
